@@ -1741,7 +1741,30 @@ def c25_valid(R):
     n = 0
     for name, fn in sorted(arms.items()):
         if name in _BALANCE_EXACT:
-            R.ok(m, fn, f"{name}: {_BALANCE_EXACT[name]}")
+            # "rewrites the left side only" is read off the code: every rebuilt comparison keeps the operator and the
+            # right-hand side of the original
+            xfn = util.resolve_locals(tree.func_inlined(BAL, f"Balancer.{name}"))
+            px = xfn.args.args[0].arg if xfn.args.args else "truism"
+            kept = True
+            for r in walk_no_nested(xfn):
+                if not (isinstance(r, ast.Return) and isinstance(r.value, ast.Call) and (dotted(r.value.func) or "").split(".")[-1] == "Bool" and len(r.value.args) >= 2):
+                    continue
+                if name != "_balance_and":
+                    continue
+                opx, argsx = r.value.args[0], r.value.args[1]
+                same = ast.unparse(opx) == f"{px}.op" and isinstance(argsx, (ast.Tuple, ast.List)) and len(argsx.elts) == 2 and ast.unparse(argsx.elts[1]) == f"{px}.args[1]"
+                if not same:
+                    kept = False
+                    R.bad(
+                        m,
+                        r,
+                        f"Balancer.{name} returns `{norm(r.value)[:120]}`: the arm is classified as rewriting the left side to an equal "
+                        f"expression, but this comparison changes the operator or the right-hand side - (x & 0xf) <u 0x20 holds for "
+                        f"every x, x[3:0] <u 0x20[3:0] for none, and the constraint is reported unsatisfiable",
+                        construct=f"{name}: rebuilt comparison changes operator or right-hand side",
+                    )
+            if kept:
+                R.ok(m, fn, f"{name}: {_BALANCE_EXACT[name]}")
             n += 1
             continue
         if name not in _BALANCE_ARMS:
